@@ -549,7 +549,7 @@ class Built:
         self.handler.exportObject(obj)
         self.objects.append(obj)
         self.exported[o['path']] = obj
-        if 'pval' in o and hasattr(type(obj), 'p'):
+        if 'pval' in o and any('p' in vars(k) for k in type(obj).__mro__):     # (hasattr on the class would call the descriptor)
             try:
                 obj.p = parse_value(o['pval'])      # the application assigns; a bad value raises here
             except Exception:                       # ... after it has been stored
@@ -865,6 +865,7 @@ class Scenario:
         self.n_prefix = len(self.model_lines)
         self.problems = []          # (key, what, op index, observed, expected)
         self.model_ok = True
+        self.managed_failures = 0      # GetManagedObjects calls whose reply could not be built (error reply or exception)
 
     # ---- canonical event text (must equal Driver/C10.lean's showEvent); every field of a message is
     # read from the message RE-PARSED from its bytes
@@ -945,6 +946,9 @@ class Scenario:
         cr.returned_deferred = k in rec.deferreds
         rv = oc.get('_value', _M) if any(e[0] == 'inv' for e in events) else _M
         line = self.canon_events(cr, events, rv)
+        if (op['iface'], op['member']) == MANAGED and (raised is not None or line.startswith('err ')) \
+                and op['path'] in self.built.exported:
+            self.managed_failures += 1
         if raised is not None:
             line += ' | RAISED ' + type(raised).__name__
             cr.raised = True
@@ -1516,6 +1520,8 @@ def run_batch(ctx, stream, specs, with_model=True):
     out = ctx.model(lines) if with_model else None
     for sc, (a, b) in zip(scs, spans):
         judge(ctx, stream, sc, model_out=None if out is None else out[a:b])
+    ctx.stat('GetManagedObjects reply could not be built (exercised)', sum(sc.managed_failures for sc in scs))
+    return sum(sc.managed_failures for sc in scs)
 
 
 def quiet_twisted():
@@ -1561,8 +1567,13 @@ def _run(ctx, rng):
     # calls the handler answers itself, on trees whose objects carry a property (some with a stored
     # value that cannot be marshalled)
     n = ctx.scale(quick=120, thorough=2000)
-    run_batch(ctx, 'dispatch-builtin',
-              [gen_scenario(rng, n_ops=rng.randrange(3, 8), props=True, builtin_bias=0.7) for _ in range(n)])
+    nfail = run_batch(ctx, 'dispatch-builtin',
+                      [gen_scenario(rng, n_ops=rng.randrange(3, 8), props=True, builtin_bias=0.7) for _ in range(n)])
+    if not nfail:
+        # the stream exists to exercise the failure path of the built-in handler (repair C10-02); if the
+        # generator no longer reaches it, say so loudly instead of passing with the coverage gone
+        raise RuntimeError('stream dispatch-builtin did not produce a single GetManagedObjects call whose reply '
+                           'cannot be built: the property values meant to be unmarshallable are not stored any more')
     # oracle only: exception texts with lone surrogates (not representable as Lean `Char`)
     n = ctx.scale(quick=150, thorough=1200)
     run_batch(ctx, 'oracle-hostile-text', [gen_scenario(rng, n_ops=4, hostile=True) for _ in range(n)],
